@@ -1073,6 +1073,10 @@ def module_ir(tree: ast.Module, main_name: str):
                     for st in tree.body)
     ir["helper_free"] = free_names(helper, postponed)
     ir["main_free"] = free_names(main, postponed)
+    # the same when annotations are not evaluated (text compiled by a module that itself postpones annotations: compile() inherits
+    # the future flags of the calling code)
+    ir["helper_free_postponed"] = free_names(helper, True)
+    ir["main_free_postponed"] = free_names(main, True)
     ir["helper_node"] = helper
     ir["main_node"] = main
     ir["statement_kinds"] = sorted({type(n).__name__ for n in ast.walk(tree) if isinstance(n, ast.stmt)})
